@@ -4,6 +4,9 @@ from .. import tabulate, models
 from . import encoder
 
 EXPLANATION = (
+    "(count) On the expression catalogue (~22 000 expressions, ~8 000 buildable) the program encode::compile emits has exactly as "
+    "many capturing groups as the top-level sequence has tokens for which Token::is_capturing answers true (both evaluated from "
+    "THIR), so no encoding of any catalogue shape adds or drops a group.  For all expressions, by cases: "
     "Static decision of the positional correspondence between regex groups and capturing tokens, on the encoder's "
     "emission table (every grouping x context x position x token shape): (agree) the kinds for which the encoder opens a "
     "capturing group are exactly the kinds is_capturing reports, (one) exactly one capturing group per capturing token and "
@@ -11,7 +14,7 @@ EXPLANATION = (
     "captures of `?`, `*`, `$` and classes are separator-free and a tree wildcard's capture is a run of complete "
     "components, (whole) the program is anchored so capture 0 is the whole path, and the owned and borrowed matched-text "
     "views index captures identically.  Order / non-overlap of captures follow from regex semantics and are not decided.")
-RULES = "C04.agree, C04.one, C04.nested, C04.content (EMIT+TABLE), C04.whole (SIBLING), C04.captures (EFFECT)"
+RULES = "C04.count (TABLE on a catalogue: groups in the program vs. capturing tokens), C04.agree, C04.one, C04.nested, C04.content (EMIT+TABLE), C04.whole (SIBLING), C04.captures (EFFECT)"
 
 
 def run(ctx):
@@ -23,6 +26,8 @@ def run(ctx):
     encoder.rule_whole_anchor_only(F, R)
     rule_captures(F, R)
     rule_owned(F, R)
+    from . import exhaust
+    exhaust.report_query(F, R, "C04.count", ctx.tier, "captures", 15000, 6000)
 
 
 def rule_captures(F, R):
